@@ -1239,8 +1239,19 @@ m("C17", "meta-before-declaration", UT,
         encoding = read_xml_encoding(body) or default_encoding
 ''')
 m("C17", "bom-doc-always-html", UT,
-  '''                "text/xml" if document.startswith("<?xml") else None''',
+  '''            if document.startswith("<?xml"):
+                return document, encoding, "text/xml"
+''', "")
+m("C17", "bom-doc-no-meta-type", UT,
+  '''                detect_encoding(document, encoding)[0]''',
   '''                None''')
+m("C17", "bom-outcome-ifexp", UT,
+  '''            if document.startswith("<?xml"):
+                return document, encoding, "text/xml"
+''', '''            if document.startswith("<?xml"):
+                ctype = "text/xml"
+                return document, encoding, ctype
+''', expect="silent")
 m("C17", "declared-encoding-ignored", UT,
   "        encoding = read_xml_encoding(body) or default_encoding",
   "        encoding = default_encoding")
@@ -1397,8 +1408,8 @@ m("C16", "render-without-cook-check", TP,
         stream = self.output_stream_factory()''')
 m("C16", "mtime-not-remembered", TP,
   '''            if mtime != self._v_last_read:
-                self._v_last_read = mtime
-                self._cooked = False''',
+                self._cooked = False
+                self._v_last_read = mtime''',
   '''            if mtime != self._v_last_read:
                 self._cooked = False''')
 m("C16", "reload-only-if-newer", TP,
@@ -2041,3 +2052,10 @@ m("C08", "indent-counted-in-blanks", ZP,
 m("C14", "registry-key-ignores-keywords", LO,
   "        key = args + tuple(sorted(kwargs.items()))\n",
   "        key = args\n")
+
+m("C14", "stamp-before-flag-down", "template.py",
+  """                self._cooked = False
+                self._v_last_read = mtime
+""", """                self._v_last_read = mtime
+                self._cooked = False
+""")
